@@ -276,7 +276,7 @@ impl FileSet {
     }
 }
 
-const NASTY: &[&str] = &["", "0", "-1", "1", "15", "16", "17", "18", "19", "255", "256", "32767", "32768", "-32768", "-32769", "65534", "65535", "65536", "4294967296", "99999999999999999999", "abc", "1e3", "+1", " 1", "1 ", "0x10", "NOPE", "DEFAULT", "SPACE", "*", "\"", "\"\"", "a,b", "0x0041", "0x0041..0x0040", "0x10000", "0xFFFF..0x10000", "0xZZ", "#", "1.5", "-0", "００"];
+const NASTY: &[&str] = &["", "0", "-1", "1", "2", "3", "4", "5", "6", "7", "8", "15", "16", "17", "18", "19", "255", "256", "32767", "32768", "-32768", "-32769", "65534", "65535", "65536", "65537", "131072", "4294967296", "99999999999999999999", "abc", "1e3", "+1", " 1", "1 ", "0x10", "NOPE", "DEFAULT", "SPACE", "*", "\"", "\"\"", "a,b", "0x0041", "0x0041..0x0040", "0x10000", "0xFFFF..0x10000", "0xZZ", "#", "1.5", "-0", "００"];
 
 fn mutate_text(rng: &mut Rng, data: &[u8], seps: &[char]) -> (Vec<u8>, String) {
     let text = String::from_utf8_lossy(data).to_string();
@@ -347,7 +347,15 @@ fn mutate_text(rng: &mut Rng, data: &[u8], seps: &[char]) -> (Vec<u8>, String) {
             let sep = seps.iter().cloned().find(|s| lines[i].contains(*s)).unwrap_or(seps[0]);
             let mut f: Vec<String> = lines[i].split(sep).map(|s| s.to_string()).collect();
             let j = rng.below(f.len());
-            let what = match rng.below(4) {
+            let what = match rng.below(5) {
+                4 if f[j].trim().parse::<i64>().is_ok() => {
+                    // the neighbours of a number: one past the largest id, one more cell than declared, ...
+                    let n: i64 = f[j].trim().parse().unwrap();
+                    let v = (n + [1i64, -1, 2, 3][rng.below(4)]).to_string();
+                    let w = format!("field {j} of line {i} changed from {n} to {v}");
+                    f[j] = v;
+                    w
+                }
                 0 => {
                     f.remove(j);
                     format!("field {j} of line {i} dropped")
@@ -594,18 +602,37 @@ pub fn c10_case(ctx: &mut Ctx, rng: &mut Rng) {
             }
             v
         };
-        let (lm, rm) = (mk(rng, nl), mk(rng, nr));
         let backup = write_dict(&d).ok().map(|x| x.0);
-        let (l2, r2) = (lm.clone(), rm.clone());
-        ctx.eval();
-        match guarded(move || d.map_connection_ids_from_iter(l2, r2).is_ok()) {
-            Ok(_) => ctx.bucket("mapping_sequence_no_panic"),
-            Err(p) => {
-                ctx.violation("mapping_panicked", &format!("C10:map:{}", panic_class(&p)), format!("lmap {:?} rmap {:?}: {p}", lm, rm), cj(String::new()));
-                return;
+        let restore = |b: &Option<Vec<u8>>| b.as_ref().and_then(|b| read_dict(b).ok()).and_then(|r| r.ok());
+        // up to three mappings one after the other (an accepted one is followed by the next on its result)
+        let mut cur = Some(d);
+        let mut hist: Vec<String> = vec![];
+        let mut accepted = 0;
+        for _ in 0..1 + rng.below(3) {
+            let (lm, rm) = (mk(rng, nl), mk(rng, nr));
+            hist.push(format!("lmap {:?} rmap {:?}", lm, rm));
+            ctx.eval();
+            let dd = match cur.take().or_else(|| restore(&backup)) {
+                Some(d) => d,
+                None => return,
+            };
+            match guarded(move || d_map(dd, lm, rm)) {
+                Ok(Some(d2)) => {
+                    accepted += 1;
+                    cur = Some(d2);
+                }
+                Ok(None) => {}
+                Err(p) => {
+                    ctx.violation("mapping_panicked", &format!("C10:map:{}", panic_class(&p)), format!("mappings {:?}: {p}", hist), cj(String::new()));
+                    return;
+                }
             }
         }
-        d = match backup.and_then(|b| read_dict(&b).ok()).and_then(|r| r.ok()) {
+        ctx.bucket("mapping_sequence_no_panic");
+        if accepted >= 2 {
+            ctx.bucket("two_or_more_accepted_mappings_in_a_row");
+        }
+        d = match restore(&backup) {
             Some(d) => d,
             None => return,
         };
@@ -729,19 +756,34 @@ fn examples_of(c: &Corpus) -> Vec<Sent> {
     c.iter().map(|e| e.tokens().iter().map(|w| (w.surface().to_string(), w.feature().to_string())).collect()).collect()
 }
 
+fn d_map(d: vibrato::dictionary::Dictionary, lm: Vec<u16>, rm: Vec<u16>) -> Option<vibrato::dictionary::Dictionary> {
+    d.map_connection_ids_from_iter(lm, rm).ok()
+}
+
 pub fn c19_case(ctx: &mut Ctx, rng: &mut Rng, xdir: &str) {
     let cli = std::env::var("VERIF_CLI_DIR").unwrap_or_default();
     if ctx.index % 25 == 0 && !cli.is_empty() && !xdir.is_empty() {
         c19_cli(ctx, rng, &cli, xdir);
         return;
     }
-    let surf = ["EOS", "a", "東京", " ", "x y", "EOS2", ",", "\"q\"", "é", "𠮷", "E", "OS", "1"];
+    let surf = ["EOS", "a", "東京", " ", "x y", "EOS2", ",", "\"q\"", "é", "𠮷", "E", "OS", "1", "\u{FEFF}", "\u{FEFF}a", "a", "東京"];
     let feat = ["EOS", "名詞,一般", "", " ", "a,b,\"c,d\"", "*", "助詞,ニ", "f\u{3000}g"];
     let n = rng.below(8);
     let mut corpus: Vec<Sent> = vec![];
     for _ in 0..n {
         let k = if rng.chance(0.2) { 0 } else { 1 + rng.below(5) };
         corpus.push((0..k).map(|_| (rng.pick(&surf).to_string(), rng.pick(&feat).to_string())).collect());
+    }
+    if rng.chance(0.03) {
+        // a token whose surface (or feature) is 65536 bytes or longer (a grouped run of a long input)
+        let long: String = if rng.chance(0.5) { "a".repeat(65_536 + rng.below(40)) } else { "あ".repeat(21_846 + rng.below(40)) };
+        let tok = if rng.chance(0.7) { (long, rng.pick(&feat).to_string()) } else { ("x".to_string(), long) };
+        let at = rng.below(corpus.len() + 1);
+        corpus.insert(at, vec![("b".to_string(), "F".to_string()), tok, ("c".to_string(), "G".to_string())]);
+        ctx.bucket("token_of_65536_bytes_or_more");
+    }
+    if corpus.first().and_then(|s| s.first()).map_or(false, |t| t.0.starts_with('\u{FEFF}')) {
+        ctx.bucket("first_line_starts_with_U+FEFF");
     }
     let text = corpus_text(&corpus);
     let want: Vec<Sent> = corpus.iter().filter(|s| !s.is_empty()).cloned().collect();
@@ -885,6 +927,10 @@ fn c19_cli(ctx: &mut Ctx, rng: &mut Rng, cli: &str, xdir: &str) {
     lines.push("EOS".into());
     lines.push(String::new());
     lines.push("   ".into());
+    if rng.chance(0.5) {
+        // U+FEFF is a character like any other, also at the very start of the input
+        lines[0] = format!("{}{}", '\u{FEFF}', lines[0]);
+    }
     let input = lines.join("\n") + "\n";
     w("input.txt", input.as_bytes());
     let mut t = Command::new(format!("{cli}/tokenize"));
@@ -966,7 +1012,8 @@ pub fn c20_case(ctx: &mut Ctx, rng: &mut Rng) {
     for (l, r) in &templates {
         fd += &format!("BIGRAM {l}/{r}\n");
     }
-    let vocab = ["名詞", "動詞", "*", "一般", "x", "y"];
+    // (cells with a comma or a quote are written as quoted CSV cells)
+    let vocab = ["名詞", "動詞", "*", "一般", "x", "y", "1,2-x", "q\"r", "名詞", "x"];
     let gen_ids = |rng: &mut Rng, n: usize| -> Vec<Vec<String>> {
         let mut v = vec![vec!["BOS/EOS".to_string(), "*".to_string(), "*".to_string()]];
         for _ in 1..n {
@@ -982,7 +1029,7 @@ pub fn c20_case(ctx: &mut Ctx, rng: &mut Rng) {
     let shuffle_lines = rng.chance(0.3);
     let perm_seed = rng.next();
     let idfile = |v: &Vec<Vec<String>>| -> String {
-        let mut lines: Vec<String> = v.iter().enumerate().map(|(i, f)| format!("{i} {}\n", f.join(","))).collect();
+        let mut lines: Vec<String> = v.iter().enumerate().map(|(i, f)| format!("{i} {}\n", f.iter().map(|c| csv_cell(c, false)).collect::<Vec<_>>().join(","))).collect();
         if shuffle_lines {
             Rng(perm_seed ^ v.len() as u64).shuffle(&mut lines);
         }
@@ -1054,7 +1101,7 @@ pub fn c20_case(ctx: &mut Ctx, rng: &mut Rng) {
     // ---- error cases: gap, malformed id line, id 0 not BOS/EOS
     if rng.chance(0.2) {
         // the error cases are built from tables in ascending order
-        let sorted = |v: &Vec<Vec<String>>| -> String { v.iter().enumerate().map(|(i, f)| format!("{i} {}\n", f.join(","))).collect() };
+        let sorted = |v: &Vec<Vec<String>>| -> String { v.iter().enumerate().map(|(i, f)| format!("{i} {}\n", f.iter().map(|c| csv_cell(c, false)).collect::<Vec<_>>().join(","))).collect() };
         let (mut rtxt, ltxt) = (sorted(&right_ids), sorted(&left_ids));
         let kind = rng.below(3);
         match kind {
@@ -1067,7 +1114,29 @@ pub fn c20_case(ctx: &mut Ctx, rng: &mut Rng) {
                 let drop = 1 + rng.below(lines.len() - 2);
                 rtxt = lines.iter().enumerate().filter(|(i, _)| *i != drop).map(|(_, l)| format!("{l}\n")).collect();
             }
-            1 => rtxt += "x 名詞,一般\n",
+            1 => {
+                // a line that is not `<decimal id> <features>`: appended with the next dense id, so that only
+                // its form is wrong
+                let n = rtxt.lines().count();
+                let bad = match rng.below(8) {
+                    0 => "x 名詞,一般".to_string(),
+                    1 => format!("+{n} 名詞,一般"),
+                    2 => "-1 名詞,一般".to_string(),
+                    3 => format!(" {n} 名詞,一般"),
+                    4 => format!("{n}\t名詞,一般"),
+                    5 => format!("{n}"),
+                    6 => format!("{n}名詞,一般"),
+                    _ => String::new(),
+                };
+                if rng.chance(0.5) {
+                    rtxt += &format!("{bad}\n");
+                } else {
+                    // in the middle: in place of the line of id 1, whose id it takes when it has one
+                    let lines: Vec<String> = rtxt.lines().map(|l| l.to_string()).collect();
+                    let bad1 = bad.replace(&n.to_string(), "1");
+                    rtxt = lines.iter().enumerate().map(|(i, l)| if i == 1 { format!("{bad1}\n") } else { format!("{l}\n") }).collect();
+                }
+            }
             _ => rtxt = rtxt.replacen("0 BOS/EOS", "0 名詞", 1),
         }
         let swap = rng.chance(0.5);
